@@ -68,7 +68,7 @@ Definition run_agree (fuel : nat) (db : list proc) (q : term) (qvars : list Z) (
 
 Definition pcase := (Z * list term * term * list Z * nat * list (list term) * oend)%type.
 
-Definition MFUEL : nat := Z.to_nat 9000.
+Definition MFUEL : nat := Z.to_nat 60000.
 
 Definition check_cases (dynamic : bool) (cs : list pcase) : list (Z * Z) :=
   filter (fun r => negb (Z.eqb (snd r) 0))
